@@ -7,6 +7,7 @@ import json
 import os
 import random
 
+import c02_families
 import c02_modules
 import c02_universe as U
 import impl
@@ -688,6 +689,14 @@ def search(run: lib.Run, broken):
     nmod, mod_fails = c02_modules.check(full=(run.tier == "thorough" or bool(broken)))
     for f in mod_fails:
         clauses[f["clause"]] += 1
+    # values of different declared types that are == and hash-equal, as histories in one process (no cache clearing)
+    bad_fam = c02_families.family_ok()
+    run.oblige("c02:equal-value families are pairwise == and hash-equal on this interpreter", not bad_fam, repr(bad_fam[:3]))
+    nfam, fam_fails = c02_families.check(full=True)
+    for f in fam_fails:
+        clauses[f["clause"]] += 1
+    mod_fails = mod_fails + fam_fails
+    nmod += nfam
     # shrink: per (clause, symptom, head, config) keep the smallest case
     best = {}
     for f in fails:
@@ -699,7 +708,7 @@ def search(run: lib.Run, broken):
     for k, v in law.items():
         run.laws["oracle:" + k] = v
     run.search_stats["oracle"] = {
-        "evaluations": nev + nmod, "distinct_nontrivial": nrt, "structured_sweep_cases": len(sweep), "string_ref_module_histories": nmod,
+        "evaluations": nev + nmod, "distinct_nontrivial": nrt, "structured_sweep_cases": len(sweep), "string_ref_module_histories": nmod - nfam, "equal_value_histories": nfam,
         "structured_sweep": "every structured flavour (dataclass plain/slots/frozen/kw_only, NamedTuple, TypedDict total/non-total, "
                             "annotated plain class, __slots__ class) x member kinds whose marshalled form differs from the value "
                             "(Decimal, Fraction, UUID, Path, date, datetime, time, timedelta, enum, nested structured of 4 flavours, "
@@ -722,6 +731,8 @@ def search(run: lib.Run, broken):
 def replay(payload):
     if payload.get("kind") == "c02-string-ref-modules":
         return c02_modules.replay(payload)
+    if payload.get("kind") == "c02-equal-value-history":
+        return c02_families.replay(payload)
     case = {k: payload[k] for k in ("source", "texpr", "vexpr")}
     for k in ("inq", "c01_safe", "union", "bytes_t", "head"):
         case[k] = payload.get(k)
